@@ -38,9 +38,10 @@ const (
 	oEmbeddedNUL                       // counted only: 28.001 value contains NUL
 	oAliasPayload                      // C06: the decoded value changes when the payload buffer is overwritten afterwards
 	oReceiverDep                       // C06: decoding into a receiver that holds another value yields a different value
+	oRepeatDiffers                     // C08: the same payload decoded twice in a row into one receiver: the verdicts differ
 
 	c06Bits = oPanicPack | oPanicReUnpack | oReRejected | oDrift | oNotIdentical | oAliasPayload | oReceiverDep
-	c08Bits = oPanicUnpack | oWrongLen | oOutOfRange | oPanicString | oPanicUnit
+	c08Bits = oPanicUnpack | oWrongLen | oOutOfRange | oPanicString | oPanicUnit | oRepeatDiffers
 )
 
 type flags uint8
@@ -234,6 +235,13 @@ func (c *codec) eval(p []byte, fl flags) (o outcome) {
 	}
 	if err := c.d.Unpack(p); err != nil {
 		c.err = err
+		if fl&fC08 != 0 {
+			// a rejected payload must be rejected again when it comes a second time (a device that
+			// keeps sending it), whatever the first attempt left in the receiver
+			if c.d.Unpack(p) == nil {
+				return oRejected | oRepeatDiffers
+			}
+		}
 		return oRejected
 	}
 	o = oAccepted
@@ -334,6 +342,7 @@ func (c *codec) classes(o outcome) []string {
 	add(oPanicUnpack, "C08:panic:%s")
 	add(oWrongLen, "C08:wrong-length-accepted:%s")
 	add(oOutOfRange, "C08:out-of-range:%s")
+	add(oRepeatDiffers, "C08:rejected-payload-accepted-on-repeat:%s")
 	add(oPanicString, "C08:panic:String:%s")
 	add(oPanicUnit, "C08:panic:Unit:%s")
 	return out
@@ -366,6 +375,9 @@ func (c *codec) describe(p []byte, o outcome) string {
 		return b.String()
 	case o&oRejected != 0:
 		fmt.Fprintf(&b, " rejected: %v", c.err)
+		if o&oRepeatDiffers != 0 {
+			fmt.Fprintf(&b, "; the same payload decoded once more into the same receiver is ACCEPTED and yields %s", describeValue(c.rv))
+		}
 		return b.String()
 	}
 	fmt.Fprintf(&b, " = %s", describeValue(c.rv))
